@@ -78,3 +78,69 @@ Fixpoint nodupb (l : list nat) : bool :=
 Definition c1p_core_refuted (rows : matrix) (nc : nat) (ridx cols : list nat) : bool :=
   nodupb cols && forallb (fun j => j <? nc) cols && forallb (fun i => i <? length rows) ridx &&
   negb (c1p_decide (map (select_cols cols) (map (fun i => nth i rows []) ridx)) (length cols)).
+
+(* ------------------------------------------------------------------------------------------------ *)
+(* (M) the pre- and post-processing of solve_consecutive_ones and isC1P around reorder_sets.
+   A "set" is the tuple of the row indices (ascending, as np.argwhere / the comprehension produce them) in which a
+   column has a 1.  reorder_sets (the PQ-tree) is a parameter:  reorder F = Some ordering | None (ValueError). *)
+Fixpoint lnat_eqb (a b : list nat) : bool :=
+  match a, b with
+  | [], [] => true
+  | x :: a', y :: b' => Nat.eqb x y && lnat_eqb a' b'
+  | _, _ => false
+  end.
+
+(* columns_indices[col]: the rows holding a 1 in column j, ascending *)
+Definition col_set (rows : matrix) (j : nat) : list nat :=
+  filter (fun i => pick (nth i rows []) j) (seq 0 (length rows)).
+
+(* indices_to_columns = defaultdict(list); indices_to_columns[key].append(col)  (insertion order kept) *)
+Fixpoint add_col (k : list nat) (j : nat) (g : list (list nat * list nat)) : list (list nat * list nat) :=
+  match g with
+  | [] => [(k, [j])]
+  | (k', cs) :: t => if lnat_eqb k k' then (k', cs ++ [j]) :: t else (k', cs) :: add_col k j t
+  end.
+Definition group_cols (rows : matrix) (nc : nat) : list (list nat * list nat) :=
+  fold_left (fun g j => add_col (col_set rows j) j g) (seq 0 nc) [].
+Fixpoint group_get (k : list nat) (g : list (list nat * list nat)) : list nat :=   (* defaultdict: [] if absent *)
+  match g with
+  | [] => []
+  | (k', cs) :: t => if lnat_eqb k k' then cs else group_get k t
+  end.
+
+(* isC1P: "if s not in sets: sets.append(s)" *)
+Definition memk (k : list nat) (l : list (list nat)) : bool := existsb (lnat_eqb k) l.
+Definition dedup_sets (l : list (list nat)) : list (list nat) :=
+  fold_left (fun acc s => if memk s acc then acc else acc ++ [s]) l [].
+
+Section SolverMirror.
+Variable reorder : list (list nat) -> option (list (list nat)).
+
+(* solve_consecutive_ones(matrix): Some ordered_idx = (True, ordered_idx); None = (False, None) *)
+Definition solve_model (rows : matrix) (nc : nat) : option (list nat) :=
+  let g := group_cols rows nc in
+  match reorder (map fst g) with
+  | None => None
+  | Some result => Some (flat_map (fun k => group_get k g) result)
+  end.
+
+(* isC1P(matrix) *)
+Definition isC1P_model (rows : matrix) (nc : nat) : bool :=
+  match reorder (dedup_sets (map (col_set rows) (seq 0 nc))) with
+  | None => false
+  | Some _ => true
+  end.
+End SolverMirror.
+
+(* reorder_sets itself: "if len(sets) <= 2: return sets", otherwise the PQ-tree (parameter pq_tree) *)
+Definition reorder_sets_model (pq_tree : list (list nat) -> option (list (list nat))) (F : list (list nat))
+  : option (list (list nat)) :=
+  if length F <=? 2 then Some F else pq_tree F.
+
+(* the contract of reorder_sets, as a checker and a reference decider (for the direct contract test):
+   result is a rearrangement of the family in which, for every element, the sets containing it are consecutive *)
+Definition countk (k : list nat) (l : list (list nat)) : nat := length (filter (lnat_eqb k) l).
+Definition sets_check (F result : list (list nat)) : bool :=
+  forallb (fun k => countk k F =? countk k result) (F ++ result) &&
+  forallb (fun v => contig01 (map (memn v) result)) (concat F).
+Definition sets_decide (F : list (list nat)) : bool := existsb (sets_check F) (perms F).
